@@ -98,7 +98,7 @@ def propagate_function(f, ref_names):
             if not uses_after or len(uses_after) != len(all_uses):
                 continue
             last = max(getattr(n, 'lineno', 0) for n in uses_after)
-            operands = {n.id for n in ast.walk(e) if isinstance(n, ast.Name)}
+            operands = {n.id for n in ast.walk(e) if isinstance(n, ast.Name)} - {n.id for n in ast.walk(e) if isinstance(n, ast.Name) and isinstance(n.ctx, ast.Store)}
             clobber = False
             for s in after:
                 for n in ast.walk(s):
